@@ -38,6 +38,7 @@ from ttconv.filters.isd.merge_regions import RegionsMergingISDFilter
 from ttconv.filters.isd.supported_style_properties import SupportedStylePropertiesISDFilter
 from ttconv.isd import ISD
 from ttconv.srt.paragraph import SrtParagraph
+from ttconv.time_code import ClockTime
 from ttconv.srt.config import SRTWriterConfiguration
 from ttconv.style_properties import StyleProperties, FontStyleType, NamedColors, FontWeightType, TextDecorationType
 
@@ -202,6 +203,10 @@ def from_model(doc: model.ContentDocument, config: Optional[SRTWriterConfigurati
   for i, (begin, isd) in enumerate(isds):
 
     end = isds[i + 1][0] if i + 1 < len(isds) else None
+
+    if end is not None and ClockTime.from_seconds(end) == ClockTime.from_seconds(begin):
+      # the interval vanishes at millisecond precision
+      continue
 
     for srt_filter in srt.filters:
       srt_filter.process(isd)
